@@ -370,9 +370,9 @@ def main():
     if tier == 'thorough': us += [dict(what='force', gravity='BASIC', N=3, order=1, t_ms=60000, ext=True), dict(what='force', gravity='BASIC', N=3, order=2, t_ms=120000, ext=True)]
     rep = run_units(us, worker)
     code = finish(PID, tier, rep, t0,
-        bounds=dict(real_particles='2' if tier == 'quick' else '2..3', orders=[1, 2], gravity=['BASIC', 'COMPENSATED'], test_particles='N_active in {N, N-1}, testparticle_type 0/1 (first order), 0 (second order)'),
+        bounds=dict(real_particles='2' if tier == 'quick' else '2..3', orders=[1, 2], gravity=['BASIC', 'COMPENSATED'], test_particles='N_active in {N, N-1}, testparticle_type 0/1 (first order), 0 (second order)', single_particle_variations='var_config.testparticle = i: N = 2/3, orders 1 and 2'),
         assumptions=['real arithmetic; no coincident particles', 'differentiation rules d inv(b) = -inv(b)^2 db, d sqrt(A) = dA/(2 sqrt(A)) (the only non-ring atoms in the force terms)'],
-        outside=['the integrators\' tangent maps (WHFast Kepler step derivatives, IAS15/BS propagation): agreement with finite differences over tens of orbits', 'the 35 Pal-element derivative constructors (a, lambda, h, k, ix, iy and their pairs; they go through the iterative reb_tools_solve_kepler_pal); of the 30 classical ones the quick tier covers 12', 'test-particle variations (var_config.testparticle >= 0), gravity_ignore_terms != 0', 'automatic rescaling (reb_simulation_rescale_var)', 'MEGNO -> 2 and Lyapunov -> 0 on regular orbits (long-run numerical statements)'],
+        outside=['the integrators\' tangent maps (WHFast Kepler step derivatives, IAS15/BS propagation): agreement with finite differences over tens of orbits', 'the 35 Pal-element derivative constructors (a, lambda, h, k, ix, iy and their pairs; they go through the iterative reb_tools_solve_kepler_pal); of the 30 classical ones the quick tier covers 12', 'gravity_ignore_terms != 0; single-particle variations beyond N = 3', 'automatic rescaling (reb_simulation_rescale_var)', 'MEGNO -> 2 and Lyapunov -> 0 on regular orbits (long-run numerical statements)'],
         domain_note='REAL + symbolic differentiation; z3 NRA with inv/sqrt atoms')
     sys.exit(code)
 
